@@ -36,5 +36,5 @@ def run(ctx):
              "&m_obj and a default-constructed lock and never references the mutex; the enabled arm is the locked form",
              floor=20)
     for cls in OPT:
-        ctx.step(check_guarded_fields, ctx, "C08.disabled", cls)
+        ctx.step(check_guarded_fields, ctx, "C08.disabled", cls, only_functions=common.ACQ_METHODS)
     ctx.step(common.witnesses, ctx, "C08.witness", ["C08"])
